@@ -526,6 +526,20 @@ pub fn gen_case(r: &mut Rng) -> LayoutCase {
             rows.insert(pos, note);
         }
     }
+    // now and then: two or three wholly blank rows (",,,,": spreadsheet spacer lines) somewhere in the
+    // first half.  The reader rejects them in every layout today; a program that starts to tolerate
+    // them must still number the rows of the following files as before (seeded change C07-14).
+    // Decided from the rows themselves, not from the generator's stream, so that the other cases
+    // stay what they were.
+    let h = rows.iter().fold(rows.len() as u64, |a, x| a.wrapping_mul(31).wrapping_add(x.settle_jd as u64));
+    if h % 12 == 5 && rows.len() >= 4 {
+        let nb = 2 + ((h / 12) % 2) as usize;
+        let pos = ((h / 24) as usize) % (rows.len() / 2).max(1);
+        for _ in 0..nb {
+            let blank = Row { sec: rows[pos].sec.clone(), settle_jd: rows[pos].settle_jd, cells: vec![String::new(); 15] };
+            rows.insert(pos, blank);
+        }
+    }
     let layout = gen_layout(r, &rows);
     LayoutCase { rows, layout }
 }
